@@ -3,7 +3,7 @@
    Run by bin/check in the directory ocaml/ (the facts are re-extracted first). *)
 From Coq Require Import Extraction ExtrOcamlBasic List.
 From Coq.Strings Require Import Byte.
-From GV Require Import Base.Bytes Base.Tok Skel.Compose Norm.Norm Parser.Pre Facts.ParserConsts.
+From GV Require Import Base.Bytes Base.Tok Skel.Compose Norm.Norm Inline.Css Inline.Tag Parser.Pre Facts.ParserConsts.
 
 Definition m_strip := strip_non_mso_comments.
 Definition m_escamp := escape_attribute_ampersands named_entities.
@@ -27,4 +27,19 @@ Definition m_equiv_diff (a b : bytes) : option nat := first_diff 0 (norm (lex a)
 
 Definition m_norm (a : bytes) : list ntok := norm (lex a).
 
-Extraction "model.ml" m_norm m_equiv_diff m_std_texts m_mso_texts m_merge_check m_strip m_escamp m_entities m_wrap m_preprocess m_byte_to_nat m_lex m_check_std m_check_mso m_no_vml_outside.
+Fixpoint toks_first_diff (i : nat) (a b : list tok) : option nat :=
+  match a, b with
+  | nil, nil => None
+  | cons x a', cons y b' => if tok_eqb x y then toks_first_diff (S i) a' b' else Some i
+  | _, _ => Some i
+  end.
+(* the implementation's output for [before] under the inline rules [css] must lex to the inlined token stream *)
+Definition m_inline_diff (css before after : bytes) : option nat :=
+  toks_first_diff 0 (inline_html (class_styles (parse_rules css)) (lex before)) (lex after).
+Definition m_inline_relaxed_diff (css before after : bytes) : option nat :=
+  relaxed_first_diff (class_styles (parse_rules css)) Closed 0 (lex before) (lex after).
+Definition m_parse_rules (css : bytes) : list (list bytes * list (bytes * bytes)) :=
+  map (fun r => (selectors r, declarations r)) (parse_rules css).
+Definition m_extract_class := extract_class.
+
+Extraction "model.ml" m_inline_relaxed_diff m_inline_diff m_parse_rules m_extract_class m_norm m_equiv_diff m_std_texts m_mso_texts m_merge_check m_strip m_escamp m_entities m_wrap m_preprocess m_byte_to_nat m_lex m_check_std m_check_mso m_no_vml_outside.
